@@ -3,7 +3,7 @@
 WT=/tmp/wt_confirm
 git -C /repo worktree remove --force $WT 2>/dev/null
 git -C /repo worktree add -q $WT HEAD || exit 3
-for d in /verif/seeded/C*_[1234]; do
+for d in /verif/seeded/C*_[1-9]; do
   id=$(basename $d)
   [ -f $d/confirm.json ] && continue
   cd $WT && git checkout -q -- . && git clean -fdq
